@@ -26,7 +26,11 @@ def oracle(acc, text, case, kern_only_opts):
     except Exception as e:  # noqa
         acc.violation(Viol('well-formed', 'import-raises', case, None, repr(e)[:100]))
         return
-    full = kp.dumps(doc, **kw).split('\n')[:-1]
+    try:
+        full = kp.dumps(doc, **kw).split('\n')[:-1]
+    except Exception as e:  # noqa
+        acc.violation(Viol('well-formed', 'full-export-raises', case, 'text', f'{type(e).__name__}: {str(e)[:100]}'))
+        return
     acc.count('transitions', 2)
     bars = [i for i, l in enumerate(full) if is_bar(l)]
     n = len(bars)
